@@ -46,10 +46,28 @@ def judge_panic(case, impl, model, spec):
         return ("violation", "the implementation panicked on this input")
     return ("correspondence", "implementation and model differ on this hostile input, but the implementation did not panic")
 
+def two_subtables(case):
+    """ALLOC case in which one PID carries program-map sections (pointer_field 0) of two different programs with different
+    version_numbers (warm-up and steady part taken together), at least one of them in the steady part (finding F10)"""
+    toks = case.split()
+    seen = {}; steady_pids = set()
+    for part in (1, 2):
+        d = bytes.fromhex(toks[part][1:])
+        for k in range(len(d) // 188):
+            b = d[k * 188:(k + 1) * 188]
+            if b[0] != 0x47: continue
+            p = _trace.Pkt(b); pl = p.payload()
+            if not p.pusi or pl is None or len(pl) < 9 or pl[0] != 0 or pl[1] != 2: continue
+            seen.setdefault(p.pid, set()).add(((pl[4] << 8) | pl[5], (pl[6] >> 1) & 31))
+            if part == 2: steady_pids.add(p.pid)
+    return any(pid in steady_pids and len({e for e, _ in s}) >= 2 and len({v for _, v in s}) >= 2 for pid, s in seen.items())
+
 def judge_c19(case, impl, model, spec):
     if impl.startswith("PANIC"):
         return ("violation", "the implementation panicked")
     v = [int(x) for x in impl.split()]
+    if case.startswith("ALLOC") and (v[0] != 0 or v[3] != 0) and v[1] == 0 and two_subtables(case):
+        return ("known", "F10")
     if case.startswith("ALLOC"):
         if v[0] != 0: return ("violation", f"{v[0]} heap allocations while demultiplexing steady-state packets (all PIDs seen, tables stable)")
         if v[1] != 0: return ("violation", f"{v[1]} payload slices delivered to consumers lie outside the buffer passed to push")
